@@ -111,7 +111,14 @@ class Ctx:
     def assume_checked(self, cond):
         """assume + feasibility test (used for `requires`, so vacuity is noticed)."""
         self.assume(cond)
-        if self.solver.check() == z3.unsat:
+        # short budget: `unknown` counts as feasible (as in branch(): an infeasible path only adds vacuous obligations;
+        # vacuity of the whole harness is guarded separately by the cover check)
+        self.solver.set("timeout", self.branch_timeout_ms)
+        try:
+            r = self.solver.check()
+        finally:
+            self.solver.set("timeout", self.timeout_ms)
+        if r == z3.unsat:
             raise PathEnd("infeasible")
 
     def branch(self, cond):
